@@ -13,7 +13,7 @@
    the faithful model: see the [..._refuted] theorems (witness + free-jet evaluation), each confirmed on the
    real code by the check. *)
 From Coq Require Import String ZArith List Bool.
-From V Require Import Core.Terminal Core.DField Core.Classical Model.ConstructorsM Proofs.ConstructorsP.
+From V Require Import Core.Terminal Core.DField Core.Classical Model.ConstructorsM Proofs.ConstructorsP Proofs.ConstructorsLinkP.
 Import ListNotations.
 
 (* ---------------------------------------------------------------- full theorems (every tree, every order) *)
@@ -82,6 +82,26 @@ Theorem C02_grad_result_well_formed : forall (S : dfield) lg d fuel e r,
   mk_grad d fuel e = Ok r -> cs_ok d e = true -> Good S lg d r.
 Proof. exact mk_grad_good_all. Qed.
 Print Assumptions C02_grad_result_well_formed.
+
+(* ---------------------------------------------------------------- the executable meaning gden *)
+(* [gden] (Core/Classical.v + tD on tensors of terminal expressions: what the per-case kernel checks compute)
+   is the classical meaning: whenever it is defined, entry (i,j) of the tensor evaluates to gsem ... i j
+   ([agr]: right shape, every entry defined, entry-wise equality).  2 <> 0 is only used by Average. *)
+Theorem C02_gden_is_the_classical_meaning : forall (S : dfield) lg d,
+  num S 2 <> f0 S -> forall e, gdf S lg d e -> inner_ok lg d e = true ->
+  forall sd t, gden lg d sd e = Some t -> agr S d (gsem S lg d sd e) t.
+Proof. exact gden_gsem. Qed.
+Print Assumptions C02_gden_is_the_classical_meaning.
+
+(* hence every theorem above transfers to gden: the constructed result r and the literal application e have
+   tensors whose corresponding entries evaluate to the same field element, in every differential field *)
+Theorem C02_soundness_transfers_to_gden : forall (S : dfield) lg d,
+  num S 2 <> f0 S -> forall r e sd t1 t2,
+  geq S lg d r e -> gdf S lg d r -> gdf S lg d e -> inner_ok lg d r = true -> inner_ok lg d e = true ->
+  gden lg d sd r = Some t1 -> gden lg d sd e = Some t2 ->
+  forall i j, rng d t1 i j -> rng d t2 i j -> tval S t1 i j = tval S t2 i j.
+Proof. exact gden_transfer. Qed.
+Print Assumptions C02_soundness_transfers_to_gden.
 
 (* ---------------------------------------------------------------- refutations (defects of the real code) *)
 Theorem C02_div_refuted_coefficient :
